@@ -72,3 +72,35 @@ Fixpoint spec_inters (idx : Z) (blocks : list block) : list inter :=
   | [] => []
   | b :: rest => (map (shift_inter idx) (b_inters b) ++ spec_inters (idx + blen b) rest)%list
   end.
+
+(* ---- multi-residue blocks (nodes labelled from_itp): the same merges; the first block keeps
+   its own residue numbering shifted so that its smallest residue id becomes the first
+   residue id of the molecule; a block with several residue ids that is not labelled from_itp
+   is rejected (MultiblockError) ---- *)
+Definition min_resid (b : block) : Z :=
+  match b_atoms b with [] => 0 | a :: r => fold_left (fun m x => Z.min m (a_resid x)) r (a_resid a) end.
+Definition nresid (b : block) : nat := length (nodup Z.eq_dec (map a_resid (b_atoms b))).
+
+Definition first_block_m (from_itp : bool) (b : block) (resid : Z) : mol :=
+  if from_itp
+  then {| m_atoms := number 0 (map (fun a => shift_atom a (resid - min_resid b) 0) (b_atoms b)); m_inters := b_inters b |}
+  else first_block b resid.
+
+(* one entry per block instance in residue-id order: (labelled from_itp, block) *)
+Definition add_blocks_m (r0 : Z) (blocks : list (bool * block)) : option mol :=
+  if existsb (fun fb => negb (fst fb) && Nat.ltb 1 (nresid (snd fb))) blocks then None
+  else match blocks with
+       | [] => None
+       | (f, b) :: rest => Some (fold_left merge (map snd rest) (first_block_m f b r0))
+       end.
+
+Definition last_resid (b : block) : Z := match rev (b_atoms b) with a :: _ => a_resid a | [] => 0 end.
+
+(* declarative layout: every block shifted by the residue id and charge group reached so far *)
+Fixpoint spec_atoms_m (idx dres cgoff : Z) (blocks : list block) : list (Z * atom) :=
+  match blocks with
+  | [] => []
+  | b :: rest =>
+    (number idx (map (fun a => shift_atom a dres cgoff) (b_atoms b)) ++
+     spec_atoms_m (idx + blen b) (dres + last_resid b) (cgoff + last_cg b) rest)%list
+  end.
